@@ -35,6 +35,9 @@ type CrashScenario struct {
 	Want       map[string][]byte
 	BaseKeys   []Key
 	BaseProbes []Key
+	// Dropped: the base image is a legacy store with entries whose primary
+	// data no longer exists (trace predicate for known-finding matching).
+	Dropped bool
 	// SkipEmpty: do not explore the crash points of the preamble's last op.
 	SkipEmpty bool
 	// only restricts exploration to one crash image (replay).
